@@ -145,4 +145,11 @@ var propMeta = map[string]*PropMeta{
 		Assumptions: commonAssumptions,
 		Probes: []string{"op.sql", "op.payload.S", "op.payload.L", "op.payload.W"},
 	},
+	"C11": {
+		Level: "translation_validation", QuickSecs: 45, ThoroughSecs: 900, Recycle: 100,
+		Rule: "one case = one seeded plan in world PL: a real passthrough leader whose per-partition query handlers are harness functions (db.Query -> Iterate, or UnflattenOptimized(...).Iterate) in front of N = 1..6 real standalone databases, plus a union database with all points. Placement of points on partitions is a seeded map from the values of the table's partition keys (all dims if none) to a partition - i.e. any key-respecting split, not just murmur3's. 3-9 generated queries per plan from the whole grammar (field subsets, derived fields, WHERE incl. string literals that contain SQL keywords and IN-subqueries with their own GROUP BY/HAVING, windows, GROUP BY dims/expressions/period/stride, CROSSTAB, HAVING, ORDER BY, FROM-subqueries). Oracle per program: rows(cluster plan through the leader) == rows(local plan over the union); both fail or both succeed; and when the plan text shows whole-query pushdown every output group occurs in the answer of exactly one partition. programs = queries validated, disagreements_checked = queries whose two answers were compared row by row.",
+		Real:  []string{"planner.Plan cluster paths (pushdownAllowed, planClusterPushdown, planClusterNonPushdown) inside a real passthrough zenodb.DB", "DB.queryCluster fan-out/union", "N + 1 real standalone zenodb.DB (world S components)"}, Stub: []string{"per-partition handlers: harness functions over exported API instead of followers behind RPC", "placement of rows on partitions (seeded, key-respecting)", "clock: testing/synctest"},
+		Assumptions: commonAssumptions,
+		Probes: []string{"probe.plan-pushdown", "probe.plan-nonpushdown"},
+	},
 }
